@@ -22,7 +22,7 @@ import ast
 
 from ..lifecycle import Lifecycle
 from ..repo import AnalysisError, own_nodes
-from .common import DISPATCHER, OBSERVER
+from .common import DISPATCHER, OBSERVER, only_called_from
 from .c12 import reset_order
 
 MANIFEST = {
@@ -56,7 +56,7 @@ def _classify_index(ctx, f, arg, upd, sop, ft):
             if isinstance(n, ast.For):
                 names = [x.id for x in ast.walk(n.target) if isinstance(x, ast.Name)]
                 if arg.id in names:
-                    it = ast.unparse(n.iter)
+                    it = ctx.norm.xtext(f, n.iter)
                     if f"FeatureType.{ft}" in it or it.startswith("range(") or ".machines" in it:
                         return "all"
         ds = ctx.flow.defs(f).of(arg.id)
@@ -109,7 +109,7 @@ def run(ctx):
                 recv = n.func.value
                 if isinstance(recv, ast.Attribute) and recv.attr == "graph" and ctx.types.is_a(fi.module, recv.value, g.qualname):
                     n_sites += 1
-                    if fi is rm:
+                    if fi is rm or only_called_from(ctx, fi, {rm}):
                         chk.ok("R17.a", fi.qualname, fi.loc(n), f"graph.{n.func.attr} inside remove_node")
                     else:
                         chk.violation("R17.a", fi, n, f"`{ast.unparse(n)[:80]}` deletes from the networkx graph outside JobShopGraph.remove_node: the removed-nodes mask no longer mirrors the graph", loc=fi.loc(n))
@@ -132,7 +132,7 @@ def run(ctx):
                         chk.ok("R17.a", fi.qualname, fi.loc(n), "mask initialised")
                     else:
                         chk.violation("R17.a", fi, n, "the removed-nodes mask is rebound: removals are forgotten", loc=fi.loc(n))
-                elif fi is rm and isinstance(v, ast.Constant) and v.value is True:
+                elif (fi is rm or only_called_from(ctx, fi, {rm})) and isinstance(v, ast.Constant) and v.value is True:
                     chk.ok("R17.a", fi.qualname, fi.loc(n), "mask[...] = True inside remove_node")
                 elif isinstance(v, ast.Constant) and v.value is False:
                     chk.violation("R17.a", fi, n, "a removed-nodes entry is set back to False: removals are not permanent within an episode", loc=fi.loc(n))
@@ -140,13 +140,15 @@ def run(ctx):
                     chk.violation("R17.a", fi, n, f"`{ast.unparse(n)}` writes the removed-nodes mask outside JobShopGraph.remove_node", loc=fi.loc(n))
             if isinstance(n, ast.Call) and isinstance(n.func, ast.Attribute) and n.func.attr in ("append", "pop", "clear", "insert", "extend") and isinstance(n.func.value, ast.Attribute) and n.func.value.attr == "removed_nodes":
                 n_sites += 1
-                if fi is addn and n.func.attr == "append":
+                if (fi is addn or only_called_from(ctx, fi, {addn})) and n.func.attr == "append":
                     pass
                 else:
                     chk.violation("R17.a", fi, n, f"removed_nodes.{n.func.attr}() outside add_node", loc=fi.loc(n))
     chk.floor("R17.a", n_sites, 4, "graph-removal / mask-write sites")
     # remove_node shape
-    p = rm.params[1]
+    rm_raw = rm
+    rm = ctx.norm.flat(rm)
+    p = rm_raw.params[1]
     body = ast.unparse(rm.node)
     del_main = [n for n in own_nodes(rm.node) if isinstance(n, ast.Call) and ast.unparse(n.func) == "self.graph.remove_node" and ast.unparse(n.args[0]) == p]
     flip = [n for n in own_nodes(rm.node) if isinstance(n, ast.Assign) and ast.unparse(n.targets[0]) == f"self.removed_nodes[{p}]"]
@@ -222,10 +224,17 @@ def run(ctx):
     sop = upd.params[1]
     for kind, ft, getter in (("machine", "MACHINES", "get_machine_node"), ("job", "JOBS", "get_job_node")):
         sites = []
-        for f, via in lc.self_closure(upd, upd_cls):
+        indirect = False
+        for f0, via in lc.self_closure(upd, upd_cls):
+            f = ctx.norm.flat(f0, depth=2)
             for n in own_nodes(f.node):
-                if isinstance(n, ast.Call) and isinstance(n.func, ast.Attribute) and n.func.attr == getter and n.args:
-                    sites.append((f, n))
+                if isinstance(n, ast.Call) and n.args and ctx.norm.xtext(f, n.func).endswith("." + getter):
+                    if not any(ast.unparse(n) == ast.unparse(m) and f.qualname == g.qualname for g, m in sites):
+                        sites.append((f, n))
+                elif isinstance(n, ast.Attribute) and n.attr == getter and not isinstance(f.module.parents.get(n), ast.Call):
+                    indirect = True
+        if not sites and indirect:
+            raise AnalysisError(f"{getter} is passed around as a value; the indirect lookup is not modelled")
         if not sites:
             chk.violation("R17.c", upd, None, f"completed {kind} nodes are never looked up / removed by the updater")
             continue
@@ -267,6 +276,17 @@ def run(ctx):
     pid = look.params[2]
     fast = [n for n in own_nodes(look.node) if isinstance(n, ast.Assign) and ast.unparse(n.value) == f"nodes[{pid}]"]
     direct = [n for n in own_nodes(look.node) if isinstance(n, ast.Return) and n.value is not None and ast.unparse(n.value) == f"nodes[{pid}]"]
+    def _verified(r):
+        cur = look.module.parents.get(r)
+        while cur is not None and cur is not look.node:
+            if isinstance(cur, ast.If):
+                t = ast.unparse(cur.test)
+                if "==" in t and pid in t and ("get_nested_attr" in t or "getattr" in t or "_attr" in t) and f"nodes[{pid}]" in t.replace(" ", ""):
+                    return True
+            cur = look.module.parents.get(cur)
+        return False
+
+    direct = [r for r in direct if not _verified(r)]
     for r in direct:
         chk.violation(
             "R17.d", look, r,
@@ -274,8 +294,11 @@ def run(ctx):
             "stored in id order the wrong machine/job node is returned (and removed)",
             loc=look.loc(r),
         )
+    verified_direct = [n for n in own_nodes(look.node) if isinstance(n, ast.Return) and n.value is not None and ast.unparse(n.value) == f"nodes[{pid}]" and _verified(n)]
     if direct:
         pass
+    elif verified_direct:
+        chk.ok("R17.d", look.qualname, look.loc(verified_direct[0]), "fast path verified against the node's own id")
     elif not fast:
         # no fast path: only the verified scan remains
         scan = [n for n in own_nodes(look.node) if isinstance(n, ast.For)]
